@@ -274,6 +274,27 @@ class LooseGen(gen.QueryGen):
             return self.any_call(depth, nest)
         return super().call(ret, depth, nest)
 
+    def almost_singular(self):
+        """queries that look singular but are not: a multi-selector segment of names/indices, a slice, a wildcard,
+        a descendant step, a filter — placed where only a singular query is allowed"""
+        r = self.rng
+        root = r.choice("@@$")
+        pre = "".join(self.singular_segment() for _ in range(r.choice([0, 0, 1])))
+        bad = r.choice(["['a','b']", "[0,1]", "['a',0]", "[0,0]", "['a','a']", "[0:1]", "[:]", "[*]", ".*", "..a", "..[0]",
+                        "[?@.a]", "['a',*]", "[1:2,0]"])
+        post = "".join(self.singular_segment() for _ in range(r.choice([0, 0, 1])))
+        return root + pre + bad + post
+
+    def comparable(self, depth):
+        if self.rng.random() < 0.2:
+            return self.almost_singular()
+        return super().comparable(depth)
+
+    def arg(self, t, depth, nest):
+        if t == "V" and self.rng.random() < 0.15:
+            return self.almost_singular()
+        return super().arg(t, depth, nest)
+
     def basic(self, depth, budget):
         r = self.rng
         if r.random() < 0.12:
